@@ -22,7 +22,7 @@ type BodyCase struct {
 	Syntax string `json:"syntax"` // native | json
 }
 
-const bodyRule = "bodies: 27 native body templates and 6 JSON bodies (attributes, static blocks, blocks not mentioned by the spec, dynamic blocks with default/custom/shadowing iterators, labels from the iterator, nested dynamics referring to outer iterators) x 12 hcldec specs (incl. DefaultSpec with an attribute default and a four-level nesting spec); reported = hcldec.Variables (static bodies) or dynblock.ExpandVariablesHCLDec + dynblock.VariablesHCLDec (bodies with dynamic blocks); Expand+Decode in the full scope must equal Expand+Decode in the pruned and altered scopes; iterator names must not be reported"
+const bodyRule = "bodies: 31 native body templates and 6 JSON bodies (attributes, static blocks, blocks not mentioned by the spec, dynamic blocks with default/custom/shadowing iterators, labels from the iterator, nested dynamics referring to outer iterators) x 13 hcldec specs (incl. DefaultSpec with an attribute default, a four-level nesting spec and a spec that uses one block type name with different nested specs at three places); reported = hcldec.Variables (static bodies) or dynblock.ExpandVariablesHCLDec + dynblock.VariablesHCLDec (bodies with dynamic blocks); Expand+Decode in the full scope must equal Expand+Decode in the pruned and altered scopes; iterator names must not be reported"
 
 var attrA = &hcldec.AttrSpec{Name: "a", Type: cty.DynamicPseudoType}
 var inner = hcldec.ObjectSpec{"a": attrA}
@@ -47,6 +47,14 @@ var specTable = map[string]hcldec.Spec{
 				"e": &hcldec.BlockTupleSpec{TypeName: "e", Nested: hcldec.ObjectSpec{"a": attrA}}}},
 			"f": &hcldec.BlockTupleSpec{TypeName: "f", Nested: hcldec.ObjectSpec{"a": attrA}}}},
 		"g": &hcldec.BlockTupleSpec{TypeName: "g", Nested: hcldec.ObjectSpec{"a": attrA}}}}},
+	// one block type name at two nesting levels (and under two parents) with different nested specs
+	"same-name": hcldec.ObjectSpec{
+		"b": &hcldec.BlockListSpec{TypeName: "b", Nested: hcldec.ObjectSpec{"a": attrA}},
+		"g": &hcldec.BlockListSpec{TypeName: "g", Nested: hcldec.ObjectSpec{
+			"b": &hcldec.BlockListSpec{TypeName: "b", Nested: hcldec.ObjectSpec{"c": &hcldec.AttrSpec{Name: "c", Type: cty.DynamicPseudoType},
+				"b": &hcldec.BlockTupleSpec{TypeName: "b", Nested: hcldec.ObjectSpec{"d": &hcldec.AttrSpec{Name: "d", Type: cty.DynamicPseudoType}}}}}}},
+		"h": &hcldec.BlockListSpec{TypeName: "h", Nested: hcldec.ObjectSpec{
+			"b": &hcldec.BlockAttrsSpec{TypeName: "b", ElementType: cty.DynamicPseudoType}}}},
 }
 
 type tmpl struct {
@@ -89,6 +97,11 @@ var templates = []tmpl{
 	// four levels of dynamic nesting with static siblings that refer to global variables named like the
 	// iterators of deeper levels (globals c, d, e, f are defined by the scopes)
 	{text: "dynamic \"b\" {\n  for_each = ln\n  content {\n    a = b.value\n    dynamic \"c\" {\n      for_each = [b.value, one]\n      content {\n        a = c.value\n        dynamic \"d\" {\n          for_each = [c.value]\n          content {\n            a = d.value + two\n            dynamic \"e\" {\n              for_each = [d.value]\n              content {\n                a = \"${b.key}${c.key}${d.key}${e.key}${sa}\"\n              }\n            }\n          }\n        }\n        f {\n          a = \"${d}${e}\"\n        }\n      }\n    }\n    g {\n      a = \"${c}${d}${e}\"\n    }\n  }\n}\n", only: "deep", bound: []string{"b"}},
+	// the same block type name with different nested specs at different places, static and dynamic
+	{text: "b {\n  a = sa\n}\ng {\n  b {\n    c = one\n    b {\n      d = two\n    }\n  }\n}\nh {\n  b {\n    x = s1\n    y = ls[0]\n  }\n}\n", only: "same-name"},
+	{text: "g {\n  b {\n    c = one\n    b {\n      d = two\n    }\n  }\n}\nb {\n  a = sa\n}\n", only: "same-name"},
+	{text: "b {\n  a = sa\n}\ng {\n  dynamic \"b\" {\n    for_each = ln\n    content {\n      c = b.value + one\n      dynamic \"b\" {\n        for_each = [two]\n        iterator = it\n        content {\n          d = \"${it.value}${s1}\"\n        }\n      }\n    }\n  }\n}\n", only: "same-name", bound: []string{"b", "it"}},
+	{text: "dynamic \"b\" {\n  for_each = ls\n  content {\n    a = \"${b.value}${sa}\"\n  }\n}\ndynamic \"g\" {\n  for_each = [one]\n  content {\n    b {\n      c = g.value + two\n      b {\n        d = s1\n      }\n    }\n  }\n}", only: "same-name", bound: []string{"b", "g"}},
 	// JSON bodies
 	{text: `{"a": "${sa}-${one}"}`, isJSON: true},
 	{text: `{"a": ["${sa}", {"${s1}": "${two}"}]}`, isJSON: true},
@@ -109,7 +122,7 @@ func genBodies(tier string, emit func(engine.Case) bool) {
 			if t.only != "" && t.only != sn {
 				continue
 			}
-			if t.only == "" && (sn == "default-attr" || sn == "deep") {
+			if t.only == "" && (sn == "default-attr" || sn == "deep" || sn == "same-name") {
 				continue
 			}
 			if t.only == "" && (sn == "nested") != t.nested {
